@@ -33,6 +33,11 @@ type IAMCache struct {
 	service  IAMService
 	iamcache *icache
 	cancel   context.CancelFunc
+	// mu makes a change in the underlying service together with the
+	// matching cache change a single step with respect to cache fills
+	// and other changes, so that the cache never keeps an older state
+	// than the service
+	mu sync.RWMutex
 }
 
 var _ IAMService = &IAMCache{}
@@ -141,6 +146,9 @@ func NewCache(service IAMService, expireTime, cleanupInterval time.Duration) *IA
 
 // CreateAccount send create to IAM service and creates an account cache entry
 func (c *IAMCache) CreateAccount(account Account) error {
+	c.mu.Lock()
+	defer c.mu.Unlock()
+
 	err := c.service.CreateAccount(account)
 	if err != nil {
 		return err
@@ -170,6 +178,9 @@ func (c *IAMCache) GetUserAccount(access string) (Account, error) {
 		return acct, nil
 	}
 
+	c.mu.RLock()
+	defer c.mu.RUnlock()
+
 	a, err := c.service.GetUserAccount(access)
 	if err != nil {
 		return Account{}, err
@@ -182,6 +193,9 @@ func (c *IAMCache) GetUserAccount(access string) (Account, error) {
 
 // DeleteUserAccount deletes account from IAM service and cache
 func (c *IAMCache) DeleteUserAccount(access string) error {
+	c.mu.Lock()
+	defer c.mu.Unlock()
+
 	err := c.service.DeleteUserAccount(access)
 	if err != nil {
 		return err
@@ -192,6 +206,9 @@ func (c *IAMCache) DeleteUserAccount(access string) error {
 }
 
 func (c *IAMCache) UpdateUserAccount(access string, props MutableProps) error {
+	c.mu.Lock()
+	defer c.mu.Unlock()
+
 	err := c.service.UpdateUserAccount(access, props)
 	if err != nil {
 		return err
